@@ -45,6 +45,7 @@ def check_C03(report, tier, seed):
     S.suite_tables(report, ["connect", "puback", "pubrec", "pubrel", "pubcomp", "disconnect", "suback", "unsuback", "auth",
                             "qos", "pfi", "connect311", "suback311"], "C03")
     S.suite_decode(report, tier, seed, "C03")
+    S.suite_size_limit_headers(report, "C03")
     # the decoder inside the engine: hostile bytes on one connection, then well-formed traffic on the next ones
     import suites_engine as E
     walks = E.run_walks(seed, tier, "engine-c03", 120, 3000, adversarial=True)
